@@ -19,6 +19,9 @@ Fixpoint quiet (e : expr) : bool :=
   | EArr es => forallb quiet es
   | EAt _ _ => false                              (* can fault: an index out of range aborts *)
   | ELen a => quiet a
+  | EStr1 _ a => quiet a                          (* str_length, int_to_string: total *)
+  | EStr2 o a b => match o with SEquals | SContains => quiet a && quiet b | _ => false end    (* concat and char_at can fault *)
+  | ESubstr _ _ _ => false
   end.
 
 Fixpoint loud_count (l : list expr) : nat :=
@@ -34,6 +37,9 @@ Fixpoint se_expr (e : expr) : bool :=
   | EArr es => Nat.leb (loud_count es) 1 && forallb se_expr es          (* dynarray_literal_int(n, e1, .., en) *)
   | EAt a i => Nat.leb (loud_count [a; i]) 1 && se_expr a && se_expr i  (* nl_array_at_int(a, i) *)
   | ELen a => se_expr a
+  | EStr1 _ a => se_expr a
+  | EStr2 _ a b => Nat.leb (loud_count [a; b]) 1 && se_expr a && se_expr b             (* a C call with two arguments *)
+  | ESubstr a b c => Nat.leb (loud_count [a; b; c]) 1 && se_expr a && se_expr b && se_expr c
   end.
 
 Fixpoint se_stmt (s : stmt) : bool :=
@@ -90,6 +96,11 @@ Definition arr_tail (vs : list value) (out1 : list N) : nres value :=
   match ints_of vs with Some l => NOk (VArr l) out1 | None => NStuck end.
 Definition at_tail (vs : list value) (out2 : list N) : nres value :=
   match vs with [va; vi] => nat_at va vi out2 | _ => NStuck end.
+
+Definition str2_tail (o : sop2) (vs : list value) (out2 : list N) : nres value :=
+  match vs with [va; vb] => of_nopres (nat_str2 o va vb) out2 | _ => NStuck end.
+Definition substr_tail (vs : list value) (out3 : list N) : nres value :=
+  match vs with [va; vb; vc] => of_nopres (nat_substr va vb vc) out3 | _ => NStuck end.
 
 (* how run_nat turns the result of "globals; main()" into an outcome *)
 Definition nat_finish (r : nres value) : nat_outcome :=
@@ -153,6 +164,12 @@ Fixpoint qeval (genv en : nenv) (e : expr) : option value :=
             (fun vs => match ints_of vs with Some l => Some (VArr l) | None => None end)
   | EAt _ _ => None
   | ELen a => obind (qeval genv en a) (fun va => match va with VArr l => Some (VInt (Z.of_nat (length l))) | _ => None end)
+  | EStr1 o a => obind (qeval genv en a) (fun v => nopres_q (nat_str1 o v))
+  | EStr2 o a b =>
+      match o with
+      | SEquals | SContains => obind (qeval genv en a) (fun va => obind (qeval genv en b) (fun vb => nopres_q (nat_str2 o va vb)))
+      | _ => None end
+  | ESubstr _ _ _ => None
   end.
 Fixpoint qargs (q : expr -> option value) (l : list expr) : option (list value) :=
   match l with
@@ -168,5 +185,7 @@ Fixpoint qdepth (e : expr) : nat :=
   | ECond c a b => S (Nat.max (qdepth c) (Nat.max (qdepth a) (qdepth b)))
   | EArr es => S ((fix go (l : list expr) : nat := match l with [] => O | a :: r => Nat.max (qdepth a) (go r) end) es)
   | ELen a => S (qdepth a)
+  | EStr1 _ a => S (qdepth a)
+  | EStr2 _ a b => S (Nat.max (qdepth a) (qdepth b))
   | _ => O
   end.
